@@ -89,6 +89,9 @@ OPS = [
     ("freq_shift per-chan", is_bb, lambda z: pb.freq_shift(z, per_chan(z, [1.0, -2.5, 0.0]) * z.sample_rate / len(z))),
     ("freq_shift zero", is_bb, lambda z: pb.freq_shift(z, 0 * u.Hz)),
     ("freq_shift zero array", is_bb, lambda z: pb.freq_shift(z, per_chan(z, [0.0]) * u.kHz)),
+    ("freq_shift everything out of band", is_bb, lambda z: pb.freq_shift(z, -2 * z.sample_rate)),
+    ("freq_shift per-chan all out of band", is_bb, lambda z: pb.freq_shift(z, per_chan(z, [1.0, -3.0]) * z.sample_rate)),
+    ("time_shift everything shifted out", floaty, lambda z: pb.time_shift(z, 2.0 * len(z) + 0.5)),
     ("time_shift with -0.0 entries", lambda z: floaty(z) and z.ndim >= 2, lambda z: pb.time_shift(z, per_chan(z, [-0.0, 1.5, -0.0]))),
     ("snippet whole", any_sig, lambda z: pb.snippet(z, 2, 4)),
     ("snippet a few nano-samples past a whole sample", floaty, lambda z: pb.snippet(z, 2 + 5e-9, 4)),
